@@ -130,7 +130,10 @@ class Block2Cache:
         if (
             len(assembled.payload) > req.remote.maximum_payload_size
             or req.opt.block2 is not None
-            and len(assembled.payload) > req.opt.block2.size
+            and (
+                len(assembled.payload) > req.opt.block2.size
+                or req.opt.block2.block_number != 0
+            )
         ):
             self._completes[block_key] = assembled
 
